@@ -70,90 +70,63 @@ theorem initWill_eq (req : Connect) (h : ∀ w, req.will = some w → willOk w =
     simp only [Option.map_some, validTopic_eq, this, ↓reduceIte]
     rfl
 
-/-- no second live connection with the client identifier: the reference broker's overlap test fails -/
-theorem spec_no_overlap {b : B} {s : Spec.Broker.S} (h : R b s) (c : Nat) (req : Connect)
-    (hreal : req.clientId.isEmpty = false → realCid req.clientId = true)
-    (hcf : ∀ c' τ, liveSess b c' = some τ → τ.cid ≠ effCid c req) :
-    (s.overlap || s.conns.any (fun x => x.cid == specCid c req)) = false := by
-  rw [h.overlap, Bool.false_or, List.any_eq_false]
-  intro k0 hk0
-  have hg := h.spec_getConn_of_mem hk0
-  have hal : b.alive k0.id = true := by rw [← h.connsIff, hg]; rfl
-  obtain ⟨τ, hτ⟩ := liveSess_of_alive h.inv hal
-  obtain ⟨k1, hk1, hrel⟩ := h.live k0.id τ hτ
-  rw [hg] at hk1; cases hk1
-  have hne := hcf k0.id τ hτ
-  simp only [beq_iff_eq]
-  intro heq
-  unfold specCid at heq
-  unfold effCid at hne
-  cases hemp : req.clientId.isEmpty with
-  | true =>
-    simp only [hemp, ↓reduceIte] at heq hne
-    rcases hrel.cid with ⟨_, hr⟩ | ⟨e1, e2, _⟩
-    · rw [heq, anonSpec_not_real] at hr; cases hr
-    · rw [e2] at heq
-      exact hne (by rw [e1]; exact anonSpec_inj_anonId heq)
-  | false =>
-    simp only [hemp, Bool.false_eq_true, ↓reduceIte] at heq hne
-    rcases hrel.cid with ⟨e1, _⟩ | ⟨_, e2, _⟩
-    · exact hne (by rw [e1, heq])
-    · have := hreal hemp
-      rw [← heq, e2, anonSpec_not_real] at this; cases this
-
 /-! ### the first packet -/
 
-theorem step_first {b : B} {s : Spec.Broker.S} (h : R b s) (c : Nat) (f : First) (a : Bool)
-    (hok : okEv b (.first c f a) = true) :
-    R (step b (.first c f a)).1 (Spec.Broker.step1 s (.first c f a)).1 ∧
-    Accepts (Spec.Broker.step1 s (.first c f a)).2 (step b (.first c f a)).2 := by
-  have hstep : step b (.first c f a) = first b c f a := rfl
-  simp only [okEv, Bool.and_eq_true, decide_eq_true_eq, Bool.not_eq_true'] at hok
-  obtain ⟨⟨hclt, hdead⟩, hreq⟩ := hok
-  obtain ⟨i1, i2, i3⟩ := h.step_invs (.first c f a)
-  rw [hstep] at i1 i2 i3 ⊢
-  cases hacc : Mqtt.Proofs.BrokerLife.accepts f a with
-  | false =>
-    -- refused
+theorem mconns_addConn (b1 : B) (c r : Nat) (h : (b1.conns.map (·.id)).Nodup) :
+    ((addConn b1 c r).conns.map (·.id)).Nodup := by
+  unfold addConn
+  simp only [List.map_append, List.map_cons, List.map_nil]
+  rw [List.nodup_append]
+  refine ⟨h.sublist ((List.filter_sublist).map _), by simp, ?_⟩
+  intro x hx y hy
+  simp only [List.mem_singleton] at hy
+  subst hy
+  simp only [List.mem_map, List.mem_filter, bne_iff_ne, ne_eq] at hx
+  obtain ⟨z, ⟨_, hz⟩, rfl⟩ := hx
+  exact hz
+
+/-- a first packet that is not an acceptable CONNECT (after `takeOver`, which does nothing then) -/
+theorem first_refused_refines {b : B} {s : Spec.Broker.S} (h : R b s) (c : Nat) (f : First) (a : Bool)
+    (hacc : Mqtt.Proofs.BrokerLife.accepts f a = false) :
+    R (first b c f a).1 (Spec.Broker.first s c f a).1 ∧
+    Accepts (Spec.Broker.first s c f a).2 (first b c f a).2 := by
     cases f with
     | garbage =>
-      have : Spec.Broker.step1 s (.first c .garbage a) = (s, [.refused c [none]]) := rfl
+      have : Spec.Broker.first s c .garbage a = (s, [.refused c [none]]) := rfl
       rw [this]
       exact ⟨h, accepts_refused_plain c _ (by simp)⟩
     | other t =>
-      have : Spec.Broker.step1 s (.first c (.other t) a) = (s, [.refused c [none]]) := rfl
+      have : Spec.Broker.first s c (.other t) a = (s, [.refused c [none]]) := rfl
       rw [this]
       exact ⟨h, accepts_refused_plain c _ (by simp)⟩
     | connect req =>
       have hne : ∀ x, x ∈ Spec.Broker.refusals req a →
-          Spec.Broker.step1 s (.first c (.connect req) a) = (s, [.refused c (Spec.Broker.refusals req a)]) := by
+          Spec.Broker.first s c (.connect req) a = (s, [.refused c (Spec.Broker.refusals req a)]) := by
         intro x hx
         have : (!(Spec.Broker.refusals req a).isEmpty) = true := by
           cases hr : Spec.Broker.refusals req a with
           | nil => rw [hr] at hx; cases hx
           | cons _ _ => rfl
-        simp only [Spec.Broker.step1]
+        simp only [Spec.Broker.first]
         rw [if_pos this]
       rcases Mqtt.Proofs.BrokerLife.first_table b c req a hacc with ⟨h1, h2⟩ | ⟨k, _, h2, h1⟩
       · rw [h1, hne _ h2]; exact ⟨h, accepts_refused_plain c _ h2⟩
       · rw [h1, hne _ h2]; exact ⟨h, accepts_refused_code c _ k h2⟩
-  | true =>
-    cases f with
-    | garbage => simp [Mqtt.Proofs.BrokerLife.accepts] at hacc
-    | other t => simp [Mqtt.Proofs.BrokerLife.accepts] at hacc
-    | connect req =>
-      simp only [hacc, Bool.not_true, Bool.false_or, Bool.and_eq_true] at hreq
-      obtain ⟨hcfree, hwill⟩ := hreq
-      have hwok : ∀ w, req.will = some w → willOk w = true := by
-        intro w hw; rw [hw] at hwill; exact hwill
-      have hcf : ∀ c' τ, liveSess b c' = some τ → τ.cid ≠ effCid c req := by
-        unfold effCid
-        cases hemp : req.clientId.isEmpty with
-        | true => simp only [↓reduceIte]; exact h.anon_free hdead
-        | false =>
-          simp only [hemp, Bool.false_or] at hcfree
-          simp only [Bool.false_eq_true, ↓reduceIte]
-          exact fun c' τ hτ => cidFree_spec hcfree hτ
+
+/-- an accepted CONNECT, in a state in which no live connection uses its client
+identifier (after `takeOver`): the states stay related and both sides answer with
+the same CONNACK -/
+theorem first_accepted_refines {b : B} {s : Spec.Broker.S} (h : R b s) (c : Nat) (req : Connect) (a : Bool)
+    (hacc : Mqtt.Proofs.BrokerLife.accepts (.connect req) a = true)
+    (hclt : c < cbBase) (hdead : b.alive c = false)
+    (hwok : ∀ w, req.will = some w → willOk w = true)
+    (hcf : ∀ c' τ, liveSess b c' = some τ → τ.cid ≠ effCid c req) :
+    R (first b c (.connect req) a).1 (Spec.Broker.first s c (.connect req) a).1 ∧
+    ∃ sp, (first b c (.connect req) a).2 = [.send c (.connack sp 0)] ∧
+      (Spec.Broker.first s c (.connect req) a).2 = [.send c (.connack sp 0)] := by
+      have i1 := Mqtt.Proofs.Broker.Inv_first b c (.connect req) a h.inv
+      have i2 := Mqtt.Proofs.BrokerLife.inv_first h.linv c (.connect req) a
+      have i3 := Mqtt.Proofs.BrokerQos.first_inv h.qinv c (.connect req) a
       have href : Spec.Broker.refusals req a = [] := (Mqtt.Proofs.BrokerLife.refusals_nil_iff req a).mpr hacc
       have hreal : req.clientId.isEmpty = false → realCid req.clientId = true := realCid_of_accepts hacc
       have hfa := Mqtt.Proofs.BrokerLife.first_accepted b c req a hacc
@@ -166,7 +139,6 @@ theorem step_first {b : B} {s : Spec.Broker.S} (h : R b s) (c : Nat) (f : First)
         unfold Spec.Broker.heldOf
         rw [List.map_eq_nil_iff, List.filter_eq_nil_iff]
         intro x hx; simpa using hnoc x hx
-      have hov := spec_no_overlap h c req hreal hcf
       cases hres : resumed b c req with
       | some σ =>
         -- a stored CleanSession=0 session is resumed
@@ -195,11 +167,10 @@ theorem step_first {b : B} {s : Spec.Broker.S} (h : R b s) (c : Nat) (f : First)
         have hfold : subs.foldl (fun h p => addHeld h c p.1 p.2) s.held = s.held ++ subs.map (mkHeld c) :=
           foldl_addHeld_fresh c subs s.held hsubsnd (fun x hx he => absurd he (hnoc x hx))
         rw [hfold]
-        refine ⟨?_, accepts_lits (.cons (.send c _ (by intro w h; cases h)) .nil)⟩
+        refine ⟨?_, true, rfl, rfl⟩
         have hσ'ref : (updSess σ req).ref = σ.ref := rfl
-        have hov' : (s.overlap || s.conns.any fun x => x.cid == req.clientId) = false := by rw [← hXs]; exact hov
         refine R_connect (σ' := updSess σ req) (k' := ⟨c, req.clientId, false, req.will, o2⟩) h hclt hdead i1 i2 i3
-          ?_ ?_ ?_ ?_ ?_ ?_ ?_ rfl hov' ?_ ?_ ?_ ?_ ?_ ?_ ?_
+          ?_ ?_ ?_ ?_ ?_ ?_ ?_ rfl (mconns_addConn _ c σ.ref h.mconns) ?_ ?_ ?_ ?_ ?_ ?_ ?_
         · -- live sessions
           refine liveSess_addConn (b1 := b.setSess (updSess σ req)) c σ.ref (updSess σ req) rfl rfl rfl
             (Mqtt.Proofs.BrokerLife.getSess_setSess b (updSess σ req)) ?_
@@ -310,7 +281,7 @@ theorem step_first {b : B} {s : Spec.Broker.S} (h : R b s) (c : Nat) (f : First)
               unfold resumed resumable; simp [hcl, hX]
             rw [← this]; exact hres
         rw [spec_first_fresh s c req a href hprior]
-        refine ⟨?_, accepts_lits (.cons (.send c _ (by intro w h; cases h)) .nil)⟩
+        refine ⟨?_, false, rfl, rfl⟩
         have hνref : (newSess b c req).ref = b.nextRef := rfl
         have hνcid : (newSess b c req).cid = effCid c req := rfl
         have hb1 : ((({ b with nextRef := b.nextRef + 1 } : B).setSess (newSess b c req)).storeSet (effCid c req)
@@ -326,7 +297,7 @@ theorem step_first {b : B} {s : Spec.Broker.S} (h : R b s) (c : Nat) (f : First)
           exact Mqtt.Proofs.BrokerLife.getSess_setSess_ne ({ b with nextRef := b.nextRef + 1 } : B) (newSess b c req) r hr
         refine R_connect (σ' := newSess b c req)
           (k' := ⟨c, specCid c req, specClean req, req.will, []⟩) h hclt hdead i1 i2 i3
-          ?_ ?_ rfl h.held h.heldGood ?_ (fun _ _ => rfl) rfl hov ?_ ?_ ?_ ?_ ?_ ?_ ?_
+          ?_ ?_ rfl h.held h.heldGood ?_ (fun _ _ => rfl) rfl (mconns_addConn _ c b.nextRef h.mconns) ?_ ?_ ?_ ?_ ?_ ?_ ?_
         · refine liveSess_addConn
             (b1 := (({ b with nextRef := b.nextRef + 1 } : B).setSess (newSess b c req)).storeSet (effCid c req) b.nextRef)
             c b.nextRef (newSess b c req) rfl rfl rfl hb1 ?_
@@ -352,8 +323,7 @@ theorem step_first {b : B} {s : Spec.Broker.S} (h : R b s) (c : Nat) (f : First)
                    stored := if specClean req then s.stored.filter (fun p => p.1 != specCid c req)
                              else (specCid c req, ([], [])) :: s.stored.filter (fun p => p.1 != specCid c req),
                    conns := s.conns.filter (fun (x : Spec.Broker.Conn) => x.id != c) ++
-                     [⟨c, specCid c req, specClean req, req.will, []⟩],
-                   overlap := s.overlap || s.conns.any (fun x => x.cid == specCid c req) } : Spec.Broker.S) c =
+                     [⟨c, specCid c req, specClean req, req.will, []⟩] } : Spec.Broker.S) c =
                 Spec.Broker.heldOf s c := rfl
             rw [this, hheld0]
             exact ⟨List.Perm.refl _, by simp, by simp⟩
@@ -394,5 +364,252 @@ theorem step_first {b : B} {s : Spec.Broker.S} (h : R b s) (c : Nat) (f : First)
           · have : (x == specCid c req) = false := by simpa using hxs
             simp only [List.lookup_cons, this]
             exact lookup_filter_ne' _ _ _ hxs
+
+/-! ### take-over (MQTT-3.1.4-2) -/
+
+theorem mgetConn_of_mem {b : B} (hn : (b.conns.map (·.id)).Nodup) {cn : Conn} (hm : cn ∈ b.conns) :
+    b.getConn cn.id = some cn := by
+  unfold B.getConn
+  generalize b.conns = l at hn hm
+  induction l with
+  | nil => cases hm
+  | cons x xs ih =>
+    simp only [List.map_cons, List.nodup_cons] at hn
+    rw [List.find?_cons]
+    rcases List.mem_cons.mp hm with rfl | hm'
+    · simp
+    · have hne : (x.id == cn.id) = false := by
+        rw [beq_eq_false_iff_ne]
+        intro he
+        exact hn.1 (he ▸ List.mem_map.mpr ⟨cn, hm', rfl⟩)
+      rw [hne]
+      exact ih hn.2 hm'
+
+/-- under `R` a client identifier has no live connection, or exactly one -/
+theorem sameClient_cases {b : B} {s : Spec.Broker.S} (h : R b s) (X : Bytes) :
+    (sameClient b X = [] ∧ ∀ c' τ, liveSess b c' = some τ → τ.cid ≠ X) ∨
+    (∃ c0 σ, sameClient b X = [c0] ∧ liveSess b c0 = some σ ∧ σ.cid = X) := by
+  have hmem : ∀ cn, cn ∈ b.conns.filter (fun cn => cn.alive && (match b.getSess cn.sess with
+      | some s => s.cid == X
+      | none => false)) → ∃ σ, liveSess b cn.id = some σ ∧ σ.cid = X := by
+    intro cn hcn
+    obtain ⟨hm, hp⟩ := List.mem_filter.mp hcn
+    simp only [Bool.and_eq_true] at hp
+    cases hs : b.getSess cn.sess with
+    | none => rw [hs] at hp; simp at hp
+    | some σ =>
+      rw [hs] at hp
+      exact ⟨σ, liveSess_eq (mgetConn_of_mem h.mconns hm) hp.1 hs, by simpa using hp.2⟩
+  unfold sameClient
+  cases hL : b.conns.filter (fun cn => cn.alive && (match b.getSess cn.sess with
+      | some s => s.cid == X
+      | none => false)) with
+  | nil =>
+    left
+    refine ⟨rfl, ?_⟩
+    intro c' τ hτ he
+    obtain ⟨cn, hc, ha, hs⟩ := liveSess_some hτ
+    have hm : cn ∈ b.conns := by unfold B.getConn at hc; exact List.mem_of_find?_eq_some hc
+    have : cn ∈ b.conns.filter (fun cn => cn.alive && (match b.getSess cn.sess with
+        | some s => s.cid == X
+        | none => false)) := by
+      rw [List.mem_filter]
+      refine ⟨hm, ?_⟩
+      simp [ha, hs, he]
+    rw [hL] at this; cases this
+  | cons cn rest =>
+    right
+    rw [hL] at hmem
+    obtain ⟨σ, hσ, hcid⟩ := hmem cn (List.mem_cons_self ..)
+    refine ⟨cn.id, σ, ?_, hσ, hcid⟩
+    cases rest with
+    | nil => rfl
+    | cons cn2 rest2 =>
+      exfalso
+      obtain ⟨σ2, hσ2, hcid2⟩ := hmem cn2 (by simp)
+      have hid : cn2.id = cn.id := h.cidUniq _ _ _ _ hσ2 hσ (by rw [hcid2, hcid])
+      have hsub : (cn :: cn2 :: rest2).Sublist b.conns := by rw [← hL]; exact List.filter_sublist
+      have hnd := h.mconns.sublist (hsub.map (·.id))
+      simp only [List.map_cons, List.nodup_cons, List.mem_cons, not_or] at hnd
+      exact hnd.1.1 hid.symm
+
+/-- ... and the reference broker's search for it finds the record of that connection -/
+theorem spec_find_cid {b : B} {s : Spec.Broker.S} (h : R b s) (X : Bytes) (hX : realCid X = true) :
+    ((∀ c' τ, liveSess b c' = some τ → τ.cid ≠ X) → s.conns.find? (fun x => x.cid == X) = none) ∧
+    (∀ c0 σ, liveSess b c0 = some σ → σ.cid = X →
+      ∃ k, s.conns.find? (fun x => x.cid == X) = some k ∧ k.id = c0) := by
+  have hback : ∀ k ∈ s.conns, k.cid = X → ∃ τ, liveSess b k.id = some τ ∧ τ.cid = X := by
+    intro k hk hkc
+    have hg := h.spec_getConn_of_mem hk
+    have hal : b.alive k.id = true := by rw [← h.connsIff, hg]; rfl
+    obtain ⟨τ, hτ⟩ := liveSess_of_alive h.inv hal
+    obtain ⟨k1, hk1, hrel⟩ := h.live k.id τ hτ
+    rw [hg] at hk1; cases hk1
+    refine ⟨τ, hτ, ?_⟩
+    rcases hrel.cid with ⟨e1, _⟩ | ⟨_, e2, _⟩
+    · rw [e1, hkc]
+    · rw [← hkc, e2, anonSpec_not_real] at hX; cases hX
+  constructor
+  · intro hfree
+    rw [List.find?_eq_none]
+    intro k hk hkc
+    simp only [beq_iff_eq] at hkc
+    obtain ⟨τ, hτ, hc⟩ := hback k hk hkc
+    exact hfree _ τ hτ hc
+  · intro c0 σ hσ hcid
+    obtain ⟨k0, hk0, hrel⟩ := h.live c0 σ hσ
+    have hk0c : k0.cid = X := by
+      rcases hrel.cid with ⟨e1, _⟩ | ⟨e1, _, _⟩
+      · rw [← e1, hcid]
+      · rw [hcid] at e1; rw [e1, anonId_not_real] at hX; cases hX
+    have hk0m := (spec_getConn_mem hk0).1
+    cases hf : s.conns.find? (fun x => x.cid == X) with
+    | none =>
+      rw [List.find?_eq_none] at hf
+      exact absurd (by simpa using hk0c) (hf k0 hk0m)
+    | some k =>
+      refine ⟨k, rfl, ?_⟩
+      have hkm := List.mem_of_find?_eq_some hf
+      have hkc : k.cid = X := by simpa using List.find?_some hf
+      obtain ⟨τ, hτ, hc⟩ := hback k hkm hkc
+      exact h.cidUniq _ _ _ _ hτ hσ (by rw [hc, hcid])
+
+/-- the other live connections' session objects are as they were after `stop` of one of them -/
+theorem liveSess_stop_ne {b : B} {s : Spec.Broker.S} (h : R b s) (c0 c' : Nat) (hne : c' ≠ c0) :
+    liveSess (stop b c0).1 c' = liveSess b c' := by
+  cases hal0 : b.alive c0 with
+  | false => rw [Mqtt.Proofs.BrokerLife.stop_dead b c0 hal0]
+  | true =>
+    obtain ⟨σ0, hl0⟩ := liveSess_of_alive h.inv hal0
+    unfold liveSess
+    rw [Mqtt.Proofs.BrokerLife.stop_getConn_ne b c0 c' hne]
+    cases hc : b.getConn c' with
+    | none => rfl
+    | some cn' =>
+      simp only
+      cases ha : cn'.alive with
+      | false => rfl
+      | true =>
+        simp only [↓reduceIte]
+        apply Mqtt.Proofs.BrokerLife.stop_getSess_ne
+        intro cn0 hc0 he
+        obtain ⟨cn0', hc0', _, hs0⟩ := liveSess_some hl0
+        rw [hc0] at hc0'; cases hc0'
+        obtain ⟨σ', hs'⟩ := h.linv.conns cn' (by unfold B.getConn at hc; exact List.mem_of_find?_eq_some hc)
+        have hl' := liveSess_eq hc ha hs'
+        have r1 := Mqtt.Proofs.BrokerLife.getSess_ref hs'
+        have r0 := Mqtt.Proofs.BrokerLife.getSess_ref hs0
+        exact hne (h.refUniq hl' hl0 (by rw [r1, r0, he]))
+
+theorem spec_step_first_eq (s : Spec.Broker.S) (c : Nat) (f : First) (a : Bool) :
+    Spec.Broker.step1 s (.first c f a) =
+      ((Spec.Broker.first (Spec.Broker.takeOver s f a).1 c f a).1,
+       (Spec.Broker.takeOver s f a).2 ++ (Spec.Broker.first (Spec.Broker.takeOver s f a).1 c f a).2) := rfl
+
+theorem spec_takeOver_refused (s : Spec.Broker.S) (f : First) (a : Bool)
+    (hacc : Mqtt.Proofs.BrokerLife.accepts f a = false) : Spec.Broker.takeOver s f a = (s, []) := by
+  cases f with
+  | garbage => rfl
+  | other t => rfl
+  | connect req =>
+    have hne : Spec.Broker.refusals req a ≠ [] := by
+      intro h0
+      rw [(Mqtt.Proofs.BrokerLife.refusals_nil_iff req a).mp h0] at hacc; cases hacc
+    unfold Spec.Broker.takeOver
+    cases hr : Spec.Broker.refusals req a with
+    | nil => exact absurd hr hne
+    | cons _ _ => simp [hr]
+
+theorem spec_takeOver_accepted (s : Spec.Broker.S) (req : Connect) (a : Bool)
+    (hacc : Mqtt.Proofs.BrokerLife.accepts (.connect req) a = true) :
+    Spec.Broker.takeOver s (.connect req) a =
+      if req.clientId.isEmpty then (s, []) else
+        match s.conns.find? (fun x => x.cid == req.clientId) with
+        | some old => Spec.Broker.endConn s old.id false
+        | none => (s, []) := by
+  have href : Spec.Broker.refusals req a = [] := (Mqtt.Proofs.BrokerLife.refusals_nil_iff req a).mpr hacc
+  unfold Spec.Broker.takeOver
+  simp only [href, List.isEmpty_nil, Bool.not_true, Bool.false_or]
+  rfl
+
+/-- **take-over**: an acceptable CONNECT ends the live connection that carries its
+client identifier, if there is one (there is at most one), on both sides - the
+model by `stop`, the reference broker by `endConn`, not gracefully -, the states
+stay related, and afterwards no live connection uses the identifier -/
+theorem takeOver_refines {b : B} {s : Spec.Broker.S} (h : R b s) (c : Nat) (req : Connect) (a : Bool)
+    (hacc : Mqtt.Proofs.BrokerLife.accepts (.connect req) a = true) (hdead : b.alive c = false) :
+    R (takeOver b (.connect req) a).1 (Spec.Broker.takeOver s (.connect req) a).1 ∧
+    (takeOver b (.connect req) a).1.alive c = false ∧
+    (∀ c' τ, liveSess (takeOver b (.connect req) a).1 c' = some τ → τ.cid ≠ effCid c req) ∧
+    ((takeOver b (.connect req) a = (b, []) ∧ Spec.Broker.takeOver s (.connect req) a = (s, [])) ∨
+     ∃ c0 σ fs fo, liveSess b c0 = some σ ∧ σ.cid = req.clientId ∧ req.clientId.isEmpty = false ∧
+       takeOver b (.connect req) a = stop b c0 ∧
+       Spec.Broker.takeOver s (.connect req) a = Spec.Broker.endConn s c0 false ∧
+       (Spec.Broker.endConn s c0 false).2 = .closed c0 :: fs ∧ (stop b c0).2 = .closed c0 :: fo ∧ Fan fs fo) := by
+  rw [Mqtt.Proofs.BrokerLife.takeOver_accepted b req a hacc, spec_takeOver_accepted s req a hacc]
+  cases hemp : req.clientId.isEmpty with
+  | true =>
+    simp only [↓reduceIte]
+    refine ⟨h, hdead, ?_, .inl ⟨trivial, trivial⟩⟩
+    unfold effCid; simp only [hemp, ↓reduceIte]; exact h.anon_free hdead
+  | false =>
+    simp only [Bool.false_eq_true, ↓reduceIte]
+    have hX : effCid c req = req.clientId := by unfold effCid; simp [hemp]
+    have hXreal := realCid_of_accepts hacc hemp
+    obtain ⟨hfind0, hfind1⟩ := spec_find_cid h req.clientId hXreal
+    rcases sameClient_cases h req.clientId with ⟨hnil, hfree⟩ | ⟨c0, σ, hone, hσ, hcid⟩
+    · rw [hnil, hfind0 hfree]
+      simp only [Mqtt.Proofs.Connect.stopAll_nil]
+      exact ⟨h, hdead, by rw [hX]; exact hfree, .inl ⟨trivial, trivial⟩⟩
+    · obtain ⟨k, hk, hkid⟩ := hfind1 c0 σ hσ hcid
+      have hstopAll : stopAll b [c0] = stop b c0 := by
+        simp only [Mqtt.Proofs.Connect.stopAll_cons, Mqtt.Proofs.Connect.stopAll_nil, List.append_nil]
+      rw [hone, hk, hstopAll]
+      simp only [hkid]
+      have hal0 := liveSess_alive hσ
+      obtain ⟨r0, fs, fo, e1, e2, fan⟩ := stop_refines h c0 hal0
+      have hne : c ≠ c0 := by intro e; rw [e, hal0] at hdead; cases hdead
+      refine ⟨r0, ?_, ?_, .inr ⟨c0, σ, fs, fo, hσ, hcid, trivial, rfl, rfl, e1, e2, fan⟩⟩
+      · rw [Mqtt.Proofs.BrokerLife.stop_alive_ne b c0 c hne]; exact hdead
+      · intro c' τ hτ
+        rw [hX]
+        by_cases he : c' = c0
+        · subst he
+          have := liveSess_alive hτ
+          rw [Mqtt.Proofs.BrokerLife.stop_not_alive] at this; cases this
+        · rw [liveSess_stop_ne h c0 c' he] at hτ
+          intro hc
+          exact he (h.cidUniq _ _ _ _ hτ hσ (by rw [hc, hcid]))
+
+/-- **the first packet of a connection**, take-over included -/
+theorem step_first {b : B} {s : Spec.Broker.S} (h : R b s) (c : Nat) (f : First) (a : Bool)
+    (hok : okEv b (.first c f a) = true) :
+    R (step b (.first c f a)).1 (Spec.Broker.step1 s (.first c f a)).1 ∧
+    Accepts (Spec.Broker.step1 s (.first c f a)).2 (step b (.first c f a)).2 := by
+  simp only [okEv, Bool.and_eq_true, decide_eq_true_eq, Bool.not_eq_true'] at hok
+  obtain ⟨⟨hclt, hdead⟩, hreq⟩ := hok
+  rw [Mqtt.Proofs.Connect.step_first_eq, Mqtt.Proofs.Connect.connect_eq, spec_step_first_eq]
+  cases hacc : Mqtt.Proofs.BrokerLife.accepts f a with
+  | false =>
+    rw [Mqtt.Proofs.BrokerLife.takeOver_refused b f a hacc, spec_takeOver_refused s f a hacc]
+    simpa using first_refused_refines h c f a hacc
+  | true =>
+    cases f with
+    | garbage => simp [Mqtt.Proofs.BrokerLife.accepts] at hacc
+    | other t => simp [Mqtt.Proofs.BrokerLife.accepts] at hacc
+    | connect req =>
+      simp only [hacc, Bool.not_true, Bool.false_or] at hreq
+      have hwok : ∀ w, req.will = some w → willOk w = true := by
+        intro w hw; rw [hw] at hreq; exact hreq
+      obtain ⟨r0, hd0, hcf0, hto⟩ := takeOver_refines h c req a hacc hdead
+      obtain ⟨r1, sp, e1, e2⟩ := first_accepted_refines r0 c req a hacc hclt hd0 hwok hcf0
+      refine ⟨r1, ?_⟩
+      rw [e1, e2]
+      rcases hto with ⟨t1, t2⟩ | ⟨c0, σ, fs, fo, _, _, _, t1, t2, o1, o2, fan⟩
+      · rw [t1, t2]
+        exact accepts_lits (.cons (.send c _ (by intro w hw; cases hw)) .nil)
+      · rw [t1, t2, o1, o2]
+        have := accepts_shape (.cons (.closed c0) .nil) fan (.cons (.send c (.connack sp 0) (by intro w hw; cases hw)) .nil)
+        simpa using this
 
 end Mqtt.Proofs.BrokerRefine
